@@ -836,6 +836,10 @@ class Interp:
                     obj.fields[attr] = self.fresh(lc.types[key], key)
                 else:
                     obj.fields[attr] = self.havoc_like(obj.fields[attr], key)
+        for clsname, attr in getattr(lc, "modifies_heap", []):
+            decl = self.reg.heap_classes[clsname]
+            self.models.heap_array(self, clsname, attr, decl[attr])
+            self.path.heap[(clsname, attr)] = z3.Const(self.path.fresh_name(f"heap_{attr}"), z3.ArraySort(S.IntS, S.sort_of(decl[attr])))
         for expr, ty in lc.modifies.items():
             # explicit frame: "obj.field" -> type
             base, _, attr = expr.rpartition(".")
@@ -876,6 +880,8 @@ class Interp:
             return self.fresh(Ty("map", kty=v.kty, vty=v.vty, ordered=False), hint)
         if isinstance(v, SBytesIO):
             return self.fresh(T.bytesio, hint)
+        if isinstance(v, SRef):
+            return self.fresh(T.ref(f"{v.cls.__module__}.{v.cls.__qualname__}"), hint)
         raise Unsupported(f"cannot havoc loop variable {hint} of value {type(v).__name__}; give its type in the loop contract")
 
     # ------------------------------------------------------------------ clauses (specification expressions)
@@ -1026,7 +1032,14 @@ class Interp:
         if self.spec:
             parts = []
             for x in e.values:
-                v = self.eval(x, frame)
+                try:
+                    v = self.eval(x, frame)
+                except PyExc as ex:
+                    if ex.cls is not AttributeError:
+                        raise
+                    # an attribute of None inside a clause: the operand is undefined here (it is meant to be guarded
+                    # by a sibling operand); an unconstrained truth value keeps the clause sound in both polarities
+                    v = SBool(self.path.fresh_bool("undefined_operand"))
                 t = self.truth(v)
                 if isinstance(t, bool):
                     if is_and and not t:
@@ -1323,6 +1336,13 @@ def fresh_value(I: Interp, ty: Ty, hint="v"):
             from .models import attach_key_order
 
             attach_key_order(I, m, hint)
+        elif getattr(ty, "sized", False):
+            n = p.fresh_int(hint + "_size")
+            p.add_pool(n)
+            p.assume(n >= 0)
+            m.size = n
+            # a dict with a present key is not empty (the only cardinality fact used without an order)
+            p.qhyps.append(lambda t, has=has, n=n: z3.Implies(z3.Select(has, t), n >= 1))
         return m
     if k == "ref":
         from .models import heap_fresh_ref
